@@ -5,10 +5,11 @@ from checks import ormgraph_common as oc
 
 LEVEL = "model_checking"
 MANIFEST = dict(
-    text="In OrmGraph.tla the history of the collection attribute (P.children), the object-reference attribute (C.parent) and the scalar "
-         "foreign-key attribute (C.pid) IS diff(committed value, current value); TLC checks that committed values and rows change only when "
+    text="In OrmGraph.tla the history of the collection attribute (P.children), the object-reference attribute (C.parent), the directly "
+         "assigned scalar column (C.val) and the foreign-key attribute written by the unit of work (C.pid) IS diff(committed value, current "
+         "value); TLC checks that committed values and rows change only when "
          "the unit of work writes them, that a successful flush leaves no history on any member and that a row changes only for an object with "
-         "net history (set-back-to-original writes nothing). The binding reads inspect(obj).attrs[x].history of all three attributes of "
+         "net history (set-back-to-original writes nothing). The binding reads inspect(obj).attrs[x].history of all four attributes of "
          "every object after EVERY step of every walk (loaded and new objects, members and non-members) and compares (added, unchanged, "
          "deleted) with the spec's diff; after each flush the emitted INSERT/UPDATE/DELETE set with parameters must equal the spec's.",
     design_ref="3.9, 4 (C36), Appendix I",
@@ -17,7 +18,7 @@ MANIFEST = dict(
          "None as added)",
     technique="TLA+ spec (OrmGraph.tla) + TLC exhaustive model checking; spec->code replay of every state-graph edge comparing History tuples")
 MEM = ["Append", "Insert", "Remove", "Pop", "Replace", "SetParent"]
-ACTS = MEM + ["Add", "Expunge", "Flush", "CommitReload"]
+ACTS = MEM + ["SetVal", "Add", "Expunge", "Flush", "CommitReload"]
 INVS = ["TypeOK", "FlushClearsHistory", "BothSides"]
 PROPS = ["CommittedOnlyAtFlush", "NoHistoryNoWrite"]
 
@@ -26,26 +27,37 @@ def nontrivial(f, act, t):
     if t["dead"]:
         return False
     h = act["obs"]["hist"]
-    return any(h[o][0] or h[o][2] for o in h)
+    v = act["obs"]["valhist"]
+    return any(h[o][0] or h[o][2] for o in h) or any(v[c][2] for c in v)
 
 
 def main(chk):
     rng = random.Random(chk.seed)
     q = chk.quick
     nc = 2 if q else 3
-    d = 4 if q else 5
-    configs = [dict(name="default", casc="default", consts=oc.consts("default", nc, d, acts=ACTS), invs=INVS, props=PROPS, maxlen=d, nrandom=150 if q else 1500),
-               dict(name="none-loaded", casc="none", consts=oc.consts("none", nc, d, acts=ACTS + ["Delete"], init="loaded"), invs=INVS, props=PROPS,
-                    maxlen=d, nrandom=100 if q else 1000, footprint=ACTS)]
-    deep = [dict(name="deep-default", casc="default", consts=oc.consts("default", 2, 6 if q else 7, acts=ACTS), invs=INVS, props=PROPS)]
+    nr = 150 if q else 1500
+    if q:
+        configs = [dict(name="default", casc="default", consts=oc.consts("default", 2, 4, acts=ACTS), invs=INVS, props=PROPS, maxlen=4, nrandom=nr),
+                   dict(name="none-loaded", casc="none", consts=oc.consts("none", 2, 4, acts=ACTS + ["Delete"], init="loaded"), invs=INVS, props=PROPS,
+                        maxlen=4, nrandom=nr, footprint=ACTS)]
+        deep = [dict(name="deep-default", casc="default", consts=oc.consts("default", 2, 6, acts=ACTS), invs=INVS, props=PROPS)]
+    else:
+        configs = [dict(name="default-2x3", casc="default", consts=oc.consts("default", 3, 4, acts=ACTS), invs=INVS, props=PROPS, maxlen=4, nrandom=nr),
+                   dict(name="default-2x2", casc="default", consts=oc.consts("default", 2, 5, acts=ACTS), invs=INVS, props=PROPS, maxlen=5, nrandom=nr),
+                   dict(name="none-loaded-2x3", casc="none", consts=oc.consts("none", 3, 4, acts=ACTS + ["Delete"], init="loaded"), invs=INVS, props=PROPS,
+                        maxlen=4, nrandom=nr, footprint=ACTS),
+                   dict(name="orphan-2x2", casc="orphan", consts=oc.consts("orphan", 2, 4, acts=ACTS + ["Delete"]), invs=INVS, props=PROPS, maxlen=4, nrandom=nr,
+                        footprint=ACTS)]
+        deep = [dict(name="deep-default-2x3", casc="default", consts=oc.consts("default", 3, 5, acts=ACTS), invs=INVS, props=PROPS),
+                dict(name="deep-default-2x2", casc="default", consts=oc.consts("default", 2, 7, acts=ACTS), invs=INVS, props=PROPS)]
     st = oc.run_suite(chk, rng, configs, ACTS, deep=deep, nontrivial=nontrivial)
     return chk.finish(
         dict(states=st["states"] + st["deep_states"], transitions=st["transitions"] + st["deep_transitions"],
              traces_validated_against_impl=st["walks"], evaluations=st["steps"], distinct_nontrivial=st["nontrivial"], samples=st["samples"],
              edges_replayed=st["edges"], per_config=st["per_config"], action_coverage=st["action_coverage"], exhaustive=True,
-             rule="every labelled edge of the OrmGraph state graph; after each the History of 3 attributes x every object is compared; "
+             rule="every labelled edge of the OrmGraph state graph; after each the History of 4 attributes x every object is compared; "
                   "non-trivial = the target state has an attribute with non-empty added or deleted history",
              checker_cmd="tlc OrmGraph.tla (VIEW View, ACTION_CONSTRAINT Emit)"),
-        assumptions=["attributes: P.children (list), C.parent (many-to-one), C.pid (integer FK written by the unit of work); 2 parents x %d children" % nc,
+        assumptions=["attributes: P.children (list), C.parent (many-to-one), C.val (integer, assigned), C.pid (integer FK written by the unit of work); 2 parents x %d children" % nc,
                      "relationship attributes always loaded/initialised (expired / unloaded attribute paths not covered); no `del obj.attr`",
                      "autoflush off; SQLite file engine, foreign_keys=ON"])
